@@ -458,6 +458,8 @@ cum1 = cum + env.reward(s, pa[1], s1, key=K)
             s.eq("C19.5", con7 + f"[deterministic={det}]", nz6, b6.item(out, 3), ref["cum1"], "cumulative' == cumulative + reward of the step taken", loc7,
                  key="while-accumulate", necessary_for="undiscounted return")
             s.eq("C19.5", con7 + f"[deterministic={det}]", nz6, b6.item(out, 0), ref["s1"], "the carried state is the successor", loc7, key="while-state")
+            s.eq("C19.5", con7 + f"[deterministic={det}]", nz6, b6.item(out, 1), ("item", ref["pa"], 0), "the carried policy state is the one the policy call returned", loc7,
+                 key="while-policy-state", necessary_for="the mean return of the GIVEN policy (a policy with internal state advances it from step to step)")
     if seen != {True, False}:
         raise AnalysisError(f"{con7}: expected deterministic and stochastic cases")
     check_average_reward(s)
